@@ -38,9 +38,13 @@ package tracing
 //@   prop C09 C07 C17
 //@   flag spawnpre
 //@   requires subsOK(t)
+//@   requires [the-termination-channel-is-its-own] t.terminate != ctxdone(ctx) && t.terminate != t.done &&
+//@             t.terminate != t.traces && t.terminate != t.subscription && t.terminate != t.unSubscription
 //@   recvinv subscription: msg.channel != nil && !closed(msg.channel) &&
 //@             forall a int :: off(t.subscribers) <= a && a < off(t.subscribers) + len(t.subscribers) ==> at(t.subscribers, a) != msg.channel
 //@   ensures [done-closed-on-exit] isClose(ev(evlen - 1)) && evch(ev(evlen - 1)) == t.done
+//@   ensures [leaves-only-on-the-termination-message-that-follows-the-release-of-every-sender]
+//@             countOn(Recv, t.terminate) == old(countOn(Recv, t.terminate)) + 1
 //@   loop 1 for
 //@     invariant [done-stays-open] t.done != nil && !closed(t.done)
 //@     invariant [subscribers-stay-open] forall a int :: off(t.subscribers) <= a && a < off(t.subscribers) + len(t.subscribers) ==> at(t.subscribers, a) != nil && !closed(at(t.subscribers, a))
@@ -48,6 +52,7 @@ package tracing
 //@     invariant t.traces == old(t.traces) && t.subscription == old(t.subscription) && t.unSubscription == old(t.unSubscription) &&
 //@               t.terminate == old(t.terminate) && t.done == old(t.done)
 //@     invariant [the-cancellation-case-is-armed-with-the-context-or-disarmed] cancelled == nil || cancelled == ctxdone(ctx)
+//@     invariant countOn(Recv, t.terminate) == old(countOn(Recv, t.terminate)) && t.terminate != ctxdone(ctx)
 //@     iter ensures [a-turn-that-takes-the-cancellation-case-disarms-it-no-spinning]
 //@       old(cancelled) != nil && isRecv(ev(old(evlen))) && evch(ev(old(evlen))) == old(cancelled) ==> cancelled == nil
 //@     iter ensures [broadcast-same-trace-to-every-subscriber-in-order]
@@ -81,11 +86,13 @@ package tracing
 //@         forall j int :: 0 <= j && j < old(len(t.subscribers)) && old(t.subscribers[j]) != m.channel ==>
 //@           exists k int :: 0 <= k && k < len(t.subscribers) && t.subscribers[k] == old(t.subscribers[j])
 //@   loop 2 range t.subscribers
+//@     invariant countOn(Recv, t.terminate) == old(countOn(Recv, t.terminate))
 //@     invariant t.done != nil && !closed(t.done) && (forall a int :: off(t.subscribers) <= a && a < off(t.subscribers) + len(t.subscribers) ==> at(t.subscribers, a) != nil && !closed(at(t.subscribers, a)))
 //@     invariant pos == -1 && forall k int :: 0 <= k && k < i ==> t.subscribers[k] != unsch.channel
 //@     invariant t.traces == old(t.traces) && t.subscription == old(t.subscription) && t.unSubscription == old(t.unSubscription) &&
 //@               t.terminate == old(t.terminate) && t.done == old(t.done) && evlen == athead(1, evlen) + 1
 //@   loop 3 range t.subscribers
+//@     invariant countOn(Recv, t.terminate) == old(countOn(Recv, t.terminate))
 //@     invariant t.done != nil && !closed(t.done) && (forall a int :: off(t.subscribers) <= a && a < off(t.subscribers) + len(t.subscribers) ==> at(t.subscribers, a) != nil && !closed(at(t.subscribers, a)))
 //@     invariant t.traces == old(t.traces) && t.subscription == old(t.subscription) && t.unSubscription == old(t.unSubscription) &&
 //@               t.terminate == old(t.terminate) && t.done == old(t.done) && t.subscribers == athead(1, t.subscribers)
@@ -94,6 +101,7 @@ package tracing
 //@               isSend(ev(p)) && evch(ev(p)) == athead(1, t.subscribers[p - evlen - 1]) && evval(ev(p)) == iface(trace)
 //@     invariant preservedSince(1, "elems([]chan ITrace)")
 //@   loop 4 range t.subscribers
+//@     invariant countOn(Recv, t.terminate) == old(countOn(Recv, t.terminate)) + 1
 //@     invariant t.done == old(t.done) && t.done != nil && !closed(t.done) && t.subscribers == athead(1, t.subscribers) && preservedSince(1, "elems([]chan ITrace)")
 //@     invariant forall a int :: off(t.subscribers) + rk4 <= a && a < off(t.subscribers) + len(t.subscribers) ==> at(t.subscribers, a) != nil && !closed(at(t.subscribers, a))
 //@     invariant forall a int, b int :: off(t.subscribers) <= a && a < b && b < off(t.subscribers) + len(t.subscribers) ==> at(t.subscribers, a) != at(t.subscribers, b)
